@@ -151,3 +151,135 @@ func (e *Env) schedFields() *SchedFields {
 
 // canceledField is the cancel flag's name for the env-less predicate isCanceledCall.
 var canceledField = "canceled"
+
+// nodeSinkFields names the Node's buffered-writer fields by what they write to:
+// "log" (the file opened from State.Log), "stdout" / "stderr" (the files opened
+// from the step's Stdout / Stderr redirections). Read off the set-up code:
+// W = bufio.NewWriter(F), F = open(… path derived from the respective setting).
+func (e *Env) nodeSinkFields() map[string]string {
+	if e.sinkFields != nil {
+		return e.sinkFields
+	}
+	out := map[string]string{"log": "logWriter", "stdout": "stdoutWriter", "stderr": "stderrWriter"}
+	e.sinkFields = out
+	sp := e.P.Pkg(schedRel)
+	if sp == nil {
+		return out
+	}
+	isNode := func(t types.Type) bool { return strings.HasSuffix(ir.NamedType(t), schedRel+".Node") }
+	kindOf := func(name string) string {
+		switch {
+		case strings.HasSuffix(name, "State.Log"):
+			return "log"
+		case strings.HasSuffix(name, "Step.Stdout"):
+			return "stdout"
+		case strings.HasSuffix(name, "Step.Stderr"):
+			return "stderr"
+		}
+		return ""
+	}
+	for _, f := range e.RepoFuncsSorted() {
+		if rootFn(f).Package() != sp {
+			continue
+		}
+		for _, b := range f.Blocks {
+			for _, in := range b.Instrs {
+				st, ok := in.(*ssa.Store)
+				if !ok {
+					continue
+				}
+				wfa, ok := st.Addr.(*ssa.FieldAddr)
+				if !ok || !isNode(wfa.X.Type()) {
+					continue
+				}
+				c, ok := st.Val.(*ssa.Call)
+				if !ok || !ir.IsCallTo(&c.Call, "bufio.NewWriter", "bufio.NewWriterSize") {
+					continue
+				}
+				arg := c.Call.Args[0]
+				if mi, isMI := arg.(*ssa.MakeInterface); isMI {
+					arg = mi.X
+				}
+				// the file: a Node field filled in this function from an opening call,
+				// or the opening call's result itself
+				var opens []*ssa.Call
+				if u, isU := arg.(*ssa.UnOp); isU {
+					if ffa, isF := u.X.(*ssa.FieldAddr); isF && isNode(ffa.X.Type()) {
+						for _, b2 := range f.Blocks {
+							for _, in2 := range b2.Instrs {
+								if s2, isS := in2.(*ssa.Store); isS {
+									if a2, isA := s2.Addr.(*ssa.FieldAddr); isA && a2.Field == ffa.Field && isNode(a2.X.Type()) {
+										v := ir.Resolve(s2.Val)
+										if ex, isE := v.(*ssa.Extract); isE {
+											v = ex.Tuple
+										}
+										if oc, isC := v.(*ssa.Call); isC {
+											opens = append(opens, oc)
+										}
+									}
+								}
+							}
+						}
+					}
+				}
+				v := ir.Resolve(arg)
+				if ex, isE := v.(*ssa.Extract); isE {
+					v = ex.Tuple
+				}
+				if oc, isC := v.(*ssa.Call); isC {
+					opens = append(opens, oc)
+				}
+				tr := &ir.Tracer{C: e.C, Through: ir.StringThrough}
+				for _, oc := range opens {
+					for _, a := range oc.Call.Args {
+						for _, l := range tr.Trace(a) {
+							if l.Kind == "field" {
+								if k := kindOf(l.Name); k != "" {
+									out[k] = ir.FieldNameOf(wfa.X.Type(), wfa.Field)
+								}
+							}
+						}
+					}
+				}
+			}
+		}
+	}
+	return out
+}
+
+// helperObjectFields is the Tracer.Fields hook: the values stored anywhere in
+// the repository into a field of an unexported struct type of the repository
+// (a small helper object introduced to carry a few values around).
+func (e *Env) helperObjectFields(recv types.Type, field int) []ssa.Value {
+	t := derefT(recv)
+	nt, ok := t.(*types.Named)
+	if !ok || nt.Obj().Exported() || nt.Obj().Pkg() == nil {
+		return nil
+	}
+	if _, isS := nt.Underlying().(*types.Struct); !isS {
+		return nil
+	}
+	key := nt.String() + "#" + ir.FieldNameOf(recv, field)
+	if e.fieldStoreIdx == nil {
+		e.fieldStoreIdx = map[string][]ssa.Value{}
+		for _, f := range e.RepoFuncsSorted() {
+			for _, b := range f.Blocks {
+				for _, in := range b.Instrs {
+					st, ok := in.(*ssa.Store)
+					if !ok {
+						continue
+					}
+					fa, ok := st.Addr.(*ssa.FieldAddr)
+					if !ok {
+						continue
+					}
+					if n2, ok := derefT(fa.X.Type()).(*types.Named); ok && !n2.Obj().Exported() {
+						k := n2.String() + "#" + ir.FieldNameOf(fa.X.Type(), fa.Field)
+						e.fieldStoreIdx[k] = append(e.fieldStoreIdx[k], st.Val)
+					}
+				}
+			}
+		}
+	}
+	return e.fieldStoreIdx[key]
+}
